@@ -3,6 +3,8 @@ package main
 import (
 	"go/token"
 	"go/types"
+	"math"
+	"math/big"
 
 	"golang.org/x/tools/go/ssa"
 )
@@ -13,6 +15,15 @@ func (in *Interp) stdIntrinsic2(fn *ssa.Function, name string, args []Value) (Va
 		return v, true
 	}
 	switch name {
+	case "math.Ceil", "math.Floor":
+		r := bitsToReal(args[0].(*Term))
+		if r == nil {
+			in.unsupported("%s of an opaque bit pattern", name)
+		}
+		if name == "math.Ceil" {
+			return ToReal(realCeil(r)), true
+		}
+		return ToReal(realFloor(r)), true
 	case "github.com/hashicorp/go-version.NewVersion":
 		// over-approximation: parsing may succeed or fail for any input
 		in.intNondet++
@@ -149,11 +160,167 @@ func (in *Interp) stdGlobal(pkg, name string) *Cell {
 	return in.global(g)
 }
 
+// Floats come in two forms: opaque bit patterns (bit-vectors of width 32/64:
+// data that is only moved and compared) and Real terms (values derived from
+// integers by conversion, + - * /, Ceil/Floor/Round). Real arithmetic is exact;
+// it coincides with IEEE-754 double arithmetic as long as every intermediate
+// value is an integer below 2^53 or such an integer divided by a power of two,
+// which is what the code under test does (math.Ceil(float64(n)/8)).
+func bitsToReal(t *Term) *Term {
+	if t.w == SortReal {
+		return t
+	}
+	if t.IsConst() {
+		var f float64
+		if t.w == 64 {
+			f = math.Float64frombits(t.c.Uint64())
+		} else {
+			f = float64(math.Float32frombits(uint32(t.c.Uint64())))
+		}
+		if f == math.Trunc(f) && math.Abs(f) < 1e15 {
+			return mk("const", SortReal, "", big.NewInt(int64(f)))
+		}
+		// dyadic rationals: scale to an integer
+		for k := 1; k <= 20; k++ {
+			g := f * float64(int64(1)<<uint(k))
+			if g == math.Trunc(g) && math.Abs(g) < 1e15 {
+				return mk("/", SortReal, "", nil, mk("const", SortReal, "", big.NewInt(int64(g))), mk("const", SortReal, "", big.NewInt(int64(1)<<uint(k))))
+			}
+		}
+	}
+	return nil
+}
+
+// ratOf recognises constant Real terms.
+func ratOf(t *Term) (*big.Rat, bool) {
+	if t == nil || t.w != SortReal {
+		return nil, false
+	}
+	if t.op == "const" {
+		return new(big.Rat).SetInt(t.c), true
+	}
+	if t.op == "/" && t.args[0].op == "const" && t.args[1].op == "const" && t.args[1].c.Sign() != 0 {
+		return new(big.Rat).SetFrac(t.args[0].c, t.args[1].c), true
+	}
+	return nil, false
+}
+func realConst(r *big.Rat) *Term {
+	if r.IsInt() {
+		return mk("const", SortReal, "", new(big.Int).Set(r.Num()))
+	}
+	return mk("/", SortReal, "", nil, mk("const", SortReal, "", new(big.Int).Set(r.Num())), mk("const", SortReal, "", new(big.Int).Set(r.Denom())))
+}
+func ratFloor(r *big.Rat) *big.Int {
+	q, _ := floorDivMod(r.Num(), r.Denom())
+	return q
+}
+
 func (in *Interp) floatBinop(op token.Token, x, y *Term, t types.Type) Value {
+	rx, ry := bitsToReal(x), bitsToReal(y)
+	if a, ok := ratOf(rx); ok {
+		if b, ok := ratOf(ry); ok {
+			switch op {
+			case token.ADD:
+				return realConst(new(big.Rat).Add(a, b))
+			case token.SUB:
+				return realConst(new(big.Rat).Sub(a, b))
+			case token.MUL:
+				return realConst(new(big.Rat).Mul(a, b))
+			case token.QUO:
+				if b.Sign() != 0 {
+					return realConst(new(big.Rat).Quo(a, b))
+				}
+			case token.LSS:
+				return Bool(a.Cmp(b) < 0)
+			case token.LEQ:
+				return Bool(a.Cmp(b) <= 0)
+			case token.GTR:
+				return Bool(a.Cmp(b) > 0)
+			case token.GEQ:
+				return Bool(a.Cmp(b) >= 0)
+			case token.EQL:
+				return Bool(a.Cmp(b) == 0)
+			}
+		}
+	}
+	if x.w != SortReal && y.w != SortReal {
+		// two opaque bit patterns: only (in)equality of identical encodings is meaningful
+		if op == token.EQL {
+			return Eq(x, y)
+		}
+	}
+	if rx == nil || ry == nil {
+		in.unsupported("float arithmetic %s on opaque bit patterns", op)
+	}
+	switch op {
+	case token.ADD:
+		return mk("+", SortReal, "", nil, rx, ry)
+	case token.SUB:
+		return mk("-", SortReal, "", nil, rx, ry)
+	case token.MUL:
+		return mk("*", SortReal, "", nil, rx, ry)
+	case token.QUO:
+		return mk("/", SortReal, "", nil, rx, ry)
+	case token.LSS:
+		return mk("<", 0, "", nil, rx, ry)
+	case token.LEQ:
+		return mk("<=", 0, "", nil, rx, ry)
+	case token.GTR:
+		return mk("<", 0, "", nil, ry, rx)
+	case token.GEQ:
+		return mk("<=", 0, "", nil, ry, rx)
+	case token.EQL:
+		return Eq(rx, ry)
+	}
 	in.unsupported("float arithmetic %s", op)
 	return nil
 }
+
+func realFloor(x *Term) *Term { // SMT to_int is floor
+	if r, ok := ratOf(x); ok {
+		return IntBig(ratFloor(r))
+	}
+	return ToInt(x)
+}
+func realCeil(x *Term) *Term {
+	if r, ok := ratOf(x); ok {
+		return IntBig(new(big.Int).Neg(ratFloor(new(big.Rat).Neg(r))))
+	}
+	return IArith("-", IntC(0), ToInt(mk("-", SortReal, "", nil, RealC(0), x)))
+}
+
 func (in *Interp) floatConvert(t *Term, from, to types.Type) Value {
+	switch {
+	case isFloat(from) && isFloat(to):
+		if t.w == SortReal || width(from) == width(to) {
+			return t
+		}
+		in.unsupported("float32/float64 conversion of a bit pattern")
+	case isFloat(to):
+		// integer -> float: exact below 2^53
+		i := BV2Int(t, isSigned(from))
+		lo, hi := i.bounds()
+		lim := new(big.Int).Lsh(big.NewInt(1), 53)
+		if lo == nil || hi == nil || lo.CmpAbs(lim) >= 0 || hi.CmpAbs(lim) >= 0 {
+			ok := And(ICmp("<", IntBig(new(big.Int).Neg(lim)), i), ICmp("<", i, IntBig(lim)))
+			if !in.guard(ok) {
+				in.unsupported("int -> float64 conversion of a value that is not exactly representable")
+			}
+		}
+		return ToReal(i)
+	case isFloat(from):
+		r := bitsToReal(t)
+		if r == nil {
+			in.unsupported("float -> int conversion of an opaque bit pattern")
+		}
+		// truncation toward zero
+		tr := Ite(mk("<=", 0, "", nil, RealC(0), r), realFloor(r), realCeil(r))
+		w := width(to)
+		if w == SortInt {
+			return tr
+		}
+		return Int2BV(tr, w)
+	}
 	in.unsupported("float conversion %s -> %s", from, to)
 	return nil
 }
